@@ -307,6 +307,42 @@ func nsxClashSpace() *nsxSpace {
 	}}
 }
 
+// two-groups: two rules that each use a group as source and as
+// destination; device references over {gA,gB}, target references over
+// {gA,gB,gC} with changed or unchanged contents.  Groups get shared,
+// switched, edited in place and deleted within one run.
+func nsxTwoGroupSpace(name string, contents []int) *nsxSpace {
+	names := []string{"gA", "gB", "gC"}
+	contA := [][]string{{"10.1.1.10", "10.1.1.20"}, {"10.1.1.10", "10.1.1.20", "10.1.1.30"}, {"10.1.1.50", "10.1.1.60"}}
+	contB := [][]string{{"10.1.1.30", "10.1.1.40"}, {"10.1.1.30"}}
+	contC := [][]string{{"10.1.1.10", "10.1.1.20"}, {"10.1.1.50"}}
+	const nd, nt = 16, 81
+	if contents == nil {
+		for i := 0; i < 12; i++ {
+			contents = append(contents, i)
+		}
+	}
+	nc := int64(len(contents))
+	return &nsxSpace{name: name, n: nd * nt * nc, gen: func(i int64) (string, core.Files) {
+		cv := contents[i%nc]
+		i /= nc
+		t := int(i % nt)
+		d := int(i / nt)
+		// both rules tie on every sort key in front of the groups
+		mk := func(x1, y1, x2, y2 string) []nsxRuleT {
+			return []nsxRuleT{{"r1", "ALLOW", "OUT", 20, "g:" + x1, "g:" + y1, "tcp_80", false, ""},
+				{"r2", "ALLOW", "OUT", 20, "g:" + x2, "g:" + y2, "tcp_80", false, ""}}
+		}
+		dr := mk(names[d%2], names[d/2%2], names[d/4%2], names[d/8%2])
+		tr := mk(names[t%3], names[t/3%3], names[t/9%3], names[t/27%3])
+		dev := withGroups(nsxCfgT{policies: map[string][]nsxRuleT{"v1": dr}},
+			map[string][]string{"gA": contA[0], "gB": contB[0]})
+		tgt := withGroups(nsxCfgT{policies: map[string][]nsxRuleT{"v1": tr}},
+			map[string][]string{"gA": contA[cv%3], "gB": contB[cv/3%2], "gC": contC[cv/6%2]})
+		return nsxJSON(dev), core.Files{Main: nsxJSON(tgt)}
+	}}
+}
+
 func nsxServiceSpace() *nsxSpace {
 	type sv struct {
 		srv      string
@@ -434,8 +470,13 @@ func (x *nsxx) runCase(sp *nsxSpace, idx int64, a string, b core.Files, tag stri
 		}
 		return nil
 	case 2:
-		res.Count("tool_panic(see C20)", 1)
+		res.Count("tool_panic", 1)
 		res.Outcome("panic:" + out.Site)
+		// the inputs of these spaces are well-formed: the tool cannot bring
+		// the device to the target if it crashes
+		if sp.name != "corpus" || tag != "" { // corpus inputs may be malformed on purpose: C20's matter
+			x.violation(sp, idx, a, b, nil, 0, "no-panic", tag+"panic:"+out.Site, out.Panic)
+		}
 		return nil
 	}
 	res.Transitions++
@@ -618,7 +659,7 @@ func (x *nsxx) runChain() {
 }
 
 func nsxSpaces(ctx *core.Ctx) []*nsxSpace {
-	l := []*nsxSpace{nsxRuleSpace("rules", 6), nsxGroupSpace("groups", 4), nsxClashSpace(), nsxServiceSpace(), nsxPolicySpace(), nsxCorpusSpace()}
+	l := []*nsxSpace{nsxRuleSpace("rules", 6), nsxGroupSpace("groups", 4), nsxClashSpace(), nsxTwoGroupSpace("two-groups", nil), nsxServiceSpace(), nsxPolicySpace(), nsxCorpusSpace()}
 	if ctx.Thorough() {
 		l = append(l, nsxGroupSpace("groups-x", 5))
 	}
@@ -697,9 +738,10 @@ func init() {
 	})
 	otherCutRunners = append(otherCutRunners, func(ax *approvex, ctx *core.Ctx) {
 		x := &nsxx{ctx: ctx, res: ax.res, sc: ax.sc, prop: "C10", cuts: true, seen: map[string]struct{}{}}
-		l := []*nsxSpace{nsxRuleSpace("rules", 5), nsxGroupSpace("groups", 3), nsxServiceSpace(), nsxPolicySpace()}
+		l := []*nsxSpace{nsxRuleSpace("rules", 5), nsxGroupSpace("groups", 3), nsxServiceSpace(), nsxPolicySpace(),
+			nsxTwoGroupSpace("two-groups", []int{2, 5})}
 		if ctx.Thorough() {
-			l = append(l, nsxRuleSpace("rules-x", 6), nsxGroupSpace("groups-x", 4), nsxCorpusSpace())
+			l = append(l, nsxRuleSpace("rules-x", 6), nsxGroupSpace("groups-x", 4), nsxCorpusSpace(), nsxClashSpace(), nsxTwoGroupSpace("two-groups-x", nil))
 		}
 		x.run(l)
 	})
